@@ -14,6 +14,7 @@ import MD.Model.Axes
 import MD.Model.Heap
 import MD.Model.PavaArr
 import MD.Model.GpavaArr
+import MD.Model.Names
 /-! JSON-lines driver: one request per line on stdin, one response per line on stdout. -/
 open Lean MD
 
@@ -303,8 +304,15 @@ def handle (j : Json) : Except String Json := do
       let plain := match j.getObjVal? "plain" with | .ok (.bool b) => b | _ => false
       match (if plain then decomposePlain sf fnGiven lvGiven y cols w else decompose sf fnGiven lvGiven y cols w) with
       | .error e => pure (errJson e)
-      | .ok rows => pure (Json.mkObj [("rows", .arr (rows.map (fun r =>
-          floatsToJson [r.mcb, r.dsc, r.unc, r.score])).toArray)])
+      | .ok rows =>
+        -- labels: the names of the forecast columns in column order (MD/Model/Names.lean)
+        let shape : MD.Names.PredShape := match j.getObjVal? "colnames" with
+          | .ok (.arr a) => .frame (a.toList.map (fun v => match v with | .str s => s | _ => ""))
+          | _ => if cols.length = 1 then .vector none else .matrix cols.length
+        let labelled := MD.Names.labelled (MD.Names.predNames shape) rows
+        pure (Json.mkObj [("rows", .arr (rows.map (fun r =>
+          floatsToJson [r.mcb, r.dsc, r.unc, r.score])).toArray),
+          ("names", .arr (labelled.map (fun p => Json.str p.1)).toArray)])
   | "bin" =>
     let kind ← getStr j "kind"
     let nBins ← getNat j "n_bins"
